@@ -300,9 +300,13 @@ func (s *State) resetTransient() {
 // WithHeader sets the block header the way baseapp.FinalizeBlock does (both the legacy header and
 // HeaderInfo; in this SDK version WithBlockHeader does not fill HeaderInfo).
 func WithHeader(ctx sdk.Context, chainID string, height int64, t time.Time) sdk.Context {
-	h := cmtproto.Header{ChainID: chainID, Height: height, Time: t.UTC()}
+	// CometBFT is not there to supply hashes: use recognisable stand-ins (the recorded provider consensus
+	// state of a consumer genesis takes its root / next-validators hash from this header)
+	ah := sha256.Sum256([]byte(fmt.Sprintf("verif-apphash-%s-%d", chainID, height)))
+	nv := sha256.Sum256([]byte(fmt.Sprintf("verif-nextvals-%s-%d", chainID, height)))
+	h := cmtproto.Header{ChainID: chainID, Height: height, Time: t.UTC(), AppHash: ah[:], NextValidatorsHash: nv[:]}
 	return ctx.WithBlockHeader(h).
-		WithHeaderInfo(coreheader.Info{ChainID: chainID, Height: height, Time: t.UTC()}).
+		WithHeaderInfo(coreheader.Info{ChainID: chainID, Height: height, Time: t.UTC(), AppHash: ah[:]}).
 		WithChainID(chainID).
 		WithBlockGasMeter(storetypes.NewInfiniteGasMeter()).
 		WithGasMeter(storetypes.NewInfiniteGasMeter()).
